@@ -11,6 +11,8 @@ from .common import explain, has_call, has_stmt
 
 
 def run(ctx: Ctx) -> None:
+    if getattr(ctx, "_depth", 0) >= 2:
+        return  # alias of an alias: not followed (breaks import cycles between rule modules)
     repo = ctx.repo
     ctx.rule("C20.R1", "_get_trusted_value returns the value trusted_hops from the right when at least that many values exist, else None; None when trusted_hops == 0 (decision table over value lists and hop counts)", floor=1)
     ctx.rule("C20.R2", "ProxyFixMiddleware copies the scope (deepcopy) before any write into it and hands the copy to the application; untouched scopes pass through", floor=4)
@@ -120,6 +122,13 @@ def run(ctx: Ctx) -> None:
                 ok = ok and not any(f"self.{other}_complete" in a[0] for a in ga)
             ctx.check("C20.R4", ws, f"{stage}.complete forwarded iff all(self.{stage}_complete.values()) after marking this mount", ok, f"lifespan.{stage}.complete would be reported before every mount finished its {stage} (or never)", fw[0] if fw else sd)
         hl = repo.func("middleware.dispatcher", f"{cls}._handle_lifespan")
+        from .common import test_between
+
+        gl = CFG(hl)
+        rcv = gl.where(has_stmt(lambda n: isinstance(n, ast.Call) and call_name(n) == "receive" and not n.args))
+        relay = has_stmt(lambda n: isinstance(n, ast.Call) and isinstance(n.func, ast.Attribute) and n.func.attr in ("put", "send") and len(n.args) == 1 and norm(n.args[0]) == "message")
+        tb = test_between(gl, rcv, lambda nd: relay(nd) or nd.kind == "iter") if rcv else "unreached"
+        ctx.check("C20.R4", f"middleware.dispatcher:{cls}._handle_lifespan", "every received lifespan message - lifespan.shutdown included - is relayed to the mounts before the loop's exit test", tb is None, "the relay loop tests for lifespan.shutdown before forwarding: the mounts never see lifespan.shutdown and the combined shutdown never completes", tb.ast if hasattr(tb, "ast") else hl)
         src = norm(hl)
         flags_ok = True
         for stage_ in ("startup", "shutdown"):
